@@ -271,12 +271,34 @@ def fam_iter_forms(c, N, sz):
 
 
 def fam_constructors(c, N, sz):
-    out = ["new", "default", "clone_drop", "clone_keep", "to_vec", "into_iter -",
+    out = ["new", "default", "boxed", "clone_drop", "clone_keep", "to_vec", "into_iter -",
            "into_iter " + ",".join("n" * (sz + 1)), "into_iter " + ",".join("b" * (sz + 1)),
            "into_iter n,b,l", "into_iter l,n"]
     for m in range(0, 2 * N + 2):
         out.append("from_array " + c.es(m))
         out.append("from_iter " + c.es(m))
+    return out
+
+
+def fam_more_iters(c, N, sz):
+    """Iter::default / IterMut::default, (&buf).into_iter()"""
+    out = ["iter_default n,b,l,c,n", "iter_default -", "iter_mut_default n,b,l,n", "iter_mut_default sn=%s,sb=%s,l" % (c.e(), c.e())]
+    out += ["ref_into_iter " + s for s in (",".join("n" * (sz + 1)), ",".join("b" * (sz + 1)), "n,l,b,c,n", "-")]
+    return out
+
+
+def fam_debug_views(c, N, sz, with_invalid=False):
+    """Debug of Iter / IterMut / Drain / IntoIter after a script has run on them"""
+    out = []
+    pres = ["-", "n", "b", "n,b", "n,n,b,l"]
+    for (sb, eb, a, b) in all_ranges(sz, with_invalid=with_invalid):
+        for pre in pres:
+            out.append("iter_debug %s %s %s" % (sb, eb, pre))
+            out.append("iter_mut_debug %s %s %s" % (sb, eb, pre))
+            out.append("drain_debug %s %s %s" % (sb, eb, pre))
+        out.append("iter_mut_debug %s %s sn=%s,b" % (sb, eb, c.e()))
+    for pre in pres:
+        out.append("into_iter_debug " + pre)
     return out
 
 
